@@ -123,3 +123,42 @@ def family(
                 for y in ys:
                     out.append(scenario(f, ack_type=at, x_first=o, y=y, **kw))
     return out
+
+
+def repeats(
+    tier: str,
+    *,
+    ks: Iterable[int] = (3, 4, 5),
+    only: Optional[Iterable[str]] = None,
+    ack_type: Optional[str] = None,
+    a: int = 1,
+    p: int = 1,
+    tail: int = 1,
+    overlap: bool = False,
+) -> List[Dict[str, Any]]:
+    """The same fault k times in a row on one worker, then `tail` healthy messages: whatever a counter, a
+    pool, a budget or a throttle inside the worker does at the k-th occurrence. Sequential by default
+    (A=1, nothing gated: one path per scenario); overlap=True gates the bodies so that the k faulty
+    messages are processed A at a time in every order."""
+    out = []
+    for f in faults(tier):
+        kind, det = f
+        if kind == "stream" or (only is not None and kind not in only):
+            continue
+        for k in ks:
+            base = scenario(f, ack_type=ack_type, a=a, p=p, stop=False, gate_pre=False)
+            x = dict(base["msgs"][0])
+            x["gates"] = []
+            x["body"] = "gated" if overlap else "immediate"
+            if x.get("outcome") == "never":
+                x["body"] = "gated"
+            y = {"ack": "sync", "gates": [], "body": "gated" if overlap else "immediate"}
+            mws = base["mws"]
+            if kind == "hook":
+                h = det[0]
+                mws = [{"hooks": {h: "sync"}, "fail": {h: list(range(k))}, "fail_exc": det[1]}]
+            sc = dict(base)
+            sc.update({"msgs": [dict(x) for _ in range(k)] + [dict(y) for _ in range(tail)], "mws": mws, "stream": "finite",
+                       "x": list(range(k)), "y": k, "repeat": k})
+            out.append(sc)
+    return out
